@@ -213,7 +213,7 @@ def run_batches(prop, tier, base, spec, workers, wall_cap, runs_scale=1.0):
         idxs = list(range(n))
         for i in range(0, n, chunk):
             tasks.append(
-                (prop, tier, base, spec["engine"], batch["name"], batch["cfg"], idxs[i : i + chunk], 3, batch.get("run_timeout", 300))
+                (prop, tier, base, batch.get("engine", spec["engine"]), batch["name"], batch["cfg"], idxs[i : i + chunk], 3, batch.get("run_timeout", 300))
             )
     fault_batches = {b["name"]: bool(b.get("faults")) for b in spec["batches"][tier]}
     # interleave batches so that a wall cap cuts all of them proportionally
@@ -258,22 +258,31 @@ def triage(prop, tier, base, spec, agg, repo, do_shrink=True):
     """Known-finding matching, shrinking, replay verification. Returns (lines, n_viol, n_known, n_unreproduced)."""
     from . import shrink
 
-    eng = _get_engine(spec["engine"])
     known = load_known_findings()
     lines = []
     n_viol = n_known = n_unrep = 0
     known_hits = {}
     report = []
-    for c, (res, v, count) in sorted(agg.violations.items()):
+    max_reported = spec.get("max_reported", 12)
+    max_shrunk = spec.get("max_shrunk", 4)
+    unknown = []
+    # triage in a stable order: earliest run first
+    for c, (res, v, count) in sorted(agg.violations.items(), key=lambda kv: (kv[1][0]["batch"], kv[1][0]["index"], kv[0])):
         k = match_known(v, known)
         if k is not None:
             known_hits.setdefault(k["id"], [k, 0, v])
             known_hits[k["id"]][1] += count
             n_known += 1
-            continue
+        else:
+            unknown.append((c, res, v, count))
+    if len(unknown) > max_reported:
+        lines.append(f"NOTE {len(unknown)} unlisted violation classes; replaying and reporting the first {max_reported} (by run index), the rest are listed in the evidence file")
+    agg.unreported = [c for c, _, _, _ in unknown[max_reported:]]
+    for ci, (c, res, v, count) in enumerate(unknown[:max_reported]):
         plan = res["plan"]
         small = plan
-        if do_shrink:
+        eng = _get_engine(plan.get("engine", spec["engine"]))
+        if do_shrink and ci < max_shrunk:
             try:
                 small = shrink.shrink(eng, plan, prop, c, budget_s=spec.get("shrink_budget", 60))
             except Exception as e:
@@ -281,7 +290,7 @@ def triage(prop, tier, base, spec, agg, repo, do_shrink=True):
         path = os.path.join(VERIF_DIR, "replays", f"{prop}-{res['seed']}-{core.hexdigest(c)[:6]}.json")
         header = {
             "property": prop,
-            "engine": spec["engine"],
+            "engine": plan.get("engine", spec["engine"]),
             "seed": res["seed"],
             "batch": res["batch"],
             "index": res["index"],
@@ -340,6 +349,7 @@ def write_evidence(prop, tier, base, spec, agg, n_viol, repo, path=None):
         "components": eng.components(prop),
         "known_findings_hit": getattr(agg, "known_hits", {}),
         "violation_report": getattr(agg, "violation_report", []),
+        "violation_classes_not_replayed": getattr(agg, "unreported", []),
         "harness_errors": len(agg.harness_errors),
         "tree": tree_id(repo),
         "workers": spec.get("_workers"),
@@ -365,8 +375,8 @@ def write_evidence(prop, tier, base, spec, agg, n_viol, repo, path=None):
 
 
 def do_replay(prop, spec, path):
-    eng = _get_engine(spec["engine"])
     header, plan = core.load_replay(path)
+    eng = _get_engine(plan.get("engine", header.get("engine", spec["engine"])))
     res = eng.execute(plan, prop)
     want = header.get("violation_class")
     got = sorted({violation_class(v) for v in res["violations"]})
@@ -425,7 +435,16 @@ def main(argv=None):
     print(f"check {prop} tier={args.tier} VERIF_SEED={args.seed} engine={spec['engine']} workers={workers} repo={repo} tree={tree_id(repo)}")
     sys.stdout.flush()
     wall_cap = spec["wall_cap"][args.tier]
-    agg = run_batches(prop, args.tier, args.seed, spec, workers, wall_cap, args.runs_scale)
+    import shutil
+    import tempfile
+
+    scratch_root = tempfile.mkdtemp(prefix="qsimroot-")
+    os.environ["VERIF_SCRATCH"] = scratch_root
+    try:
+        agg = run_batches(prop, args.tier, args.seed, spec, workers, wall_cap, args.runs_scale)
+    finally:
+        shutil.rmtree(scratch_root, ignore_errors=True)
+        os.environ.pop("VERIF_SCRATCH", None)
     if args.digests:
         pass  # digests are collected by selftest through execute() directly
     lines, n_viol, n_known, n_unrep = triage(prop, args.tier, args.seed, spec, agg, repo, do_shrink=not args.no_shrink)
